@@ -327,11 +327,14 @@ func c08Builders(c *fw.Case) {
 		info.Patches = lp
 	}
 	var origin interface{}
-	switch r.Intn(3) {
+	switch r.Intn(4) {
 	case 1:
 		origin = "https://anchor.example/" + fmt.Sprint(r.Intn(100))
 	case 2:
 		origin = map[string]interface{}{"d": "anchor.example"}
+	case 3:
+		// an anchor origin is any JSON value; a text need not be a URI (host:port, a bare port, a stray percent sign, blanks)
+		origin = fw.Pick(r, []interface{}{"10.0.0.5:8080", ":8080", "ipfs://100%", "origin with blanks", "\u0001ctl", "[::1", "a:b:c"})
 	}
 	info.AnchorOrigin = origin
 	if r.Chance(1, 3) {
